@@ -175,4 +175,118 @@ def distIncreaseAll (s : FeeDist) : List FeeDistCall → Except AErr FeeDist
     | .error e => .error e
     | .ok s' => distIncreaseAll s' rest
 
+/-! ### msg-fee configuration (`DetermineBips`) and the payout of one transaction
+
+The route of a transaction's additional message fees: the governance endpoints store a fee per
+msg type (`Keeper.AddMsgFee` / `UpdateMsgFee`, basis points through `DetermineBips`,
+x/msgfees/keeper/keeper.go:306); for every message the msg service router computes that message's
+distribution (`CalculateAdditionalFeesToBePaid(ctx, msg)`, keeper.go:197 — one `Increase` for the
+stored fee of the type and one for an assessed custom fee) and tallies its parts in the fee gas
+meter under (msg type, recipient) (internal/handlers/msg_service_router.go:259-283,
+`FeeGasMeter.ConsumeFee`); after the messages `FeeConsumedDistributions` folds the tallies per
+recipient (fee_gas_meter.go:140, adding) and `DeductFeesDistributions` (keeper.go:140) pays every
+recipient its coins and sweeps the rest of the fee to the fee collector. -/
+
+/-- `DetermineBips(recipient, recipientBasisPoints)`; `bs = none` is the empty string. -/
+def determineBips (rcpt : String) (bs : Option Nat) : Except AErr Nat :=
+  if rcpt = "" then .ok 0
+  else match bs with
+    | none => .ok 5000                                    -- `DefaultMsgFeeBips`
+    | some n => if n > 10000 then .error .invalid else .ok n
+
+/-- `MsgAssessCustomMsgFeeRequest.GetBips` (x/msgfees/types/msgs.go:66). -/
+def assessBips (bs : Option Nat) : Except AErr Nat :=
+  match bs with
+  | none => .ok 10000                                     -- `AssessCustomMsgFeeBips`
+  | some n => if n > 10000 then .error .invalid else .ok n
+
+/-- a msg-fee proposal: msg type, fee coin, basis-points string (`none` = empty), recipient -/
+structure PayCfg where
+  typ : String
+  den : Denom
+  amt : Int
+  bips : Option Nat
+  rcpt : String
+
+/-- a stored `MsgFee` -/
+structure StoredFee where
+  typ : String
+  den : Denom
+  amt : Int
+  bips : Nat
+  rcpt : String
+
+/-- the proposals, in order: `ValidateBasic` (positive fee, `ValidateBips`) then `AddMsgFee`
+(one fee per msg type). -/
+def payConfigure (acc : List StoredFee) : List PayCfg → Except AErr (List StoredFee)
+  | [] => .ok acc
+  | c :: rest =>
+    if c.amt ≤ 0 then .error .invalid
+    else if c.rcpt = "" ∧ c.bips.isSome then .error .invalid   -- "basis points provided without a recipient"
+    else if acc.any (·.typ = c.typ) then .error .invalid       -- `ErrMsgFeeAlreadyExists`
+    else match determineBips c.rcpt c.bips with
+      | .error e => .error e
+      | .ok b => payConfigure (acc ++ [{ typ := c.typ, den := c.den, amt := c.amt, bips := b, rcpt := c.rcpt }]) rest
+
+/-- a message of the transaction: its type and, for `MsgAssessCustomMsgFeeRequest`, the custom
+fee `(denom, amount, basis-points string, recipient)` -/
+structure PayMsg where
+  typ : String
+  assess : Option (Denom × Int × Option Nat × String) := none
+
+/-- `ValidateBasic` of a message (only the assess message has conditions on the fee fields). -/
+def PayMsg.valid (m : PayMsg) : Bool :=
+  match m.assess with
+  | none => true
+  | some (_, amt, bs, _) => decide (0 < amt) && (match assessBips bs with | .ok _ => true | .error _ => false)
+
+/-- `ConvertDenomToHash`: usd at `rate` nhash per usd mil, the fee denom as is. -/
+def convertToHash (rate : Nat) (den : Denom) (amt : Int) : Except AErr Int :=
+  if den = "usd" then mul256 amt (rate : Int)
+  else if den = "nhash" then .ok amt
+  else .error .invalid
+
+/-- the `Increase` call for the stored fee of the message's type, if there is one -/
+def feeCall : Option StoredFee → List FeeDistCall
+  | some f => [(f.den, f.amt, f.bips, f.rcpt)]
+  | none => []
+
+/-- the `Increase` calls `CalculateAdditionalFeesToBePaid` makes for ONE message -/
+def msgCalls (rate : Nat) (stored : List StoredFee) (m : PayMsg) : Except AErr (List FeeDistCall) :=
+  let fromCfg : List FeeDistCall := feeCall (stored.find? (·.typ = m.typ))
+  match m.assess with
+  | none => .ok fromCfg
+  | some (den, amt, bs, rcpt) =>
+    match convertToHash rate den amt, assessBips bs with
+    | .ok a, .ok b => .ok (fromCfg ++ [("nhash", a, b, rcpt)])
+    | .error e, _ => .error e
+    | _, .error e => .error e
+
+/-- the router and the fee gas meter: every message's own distribution is computed from an empty
+one and its recipient parts are added to the tallies; the per-recipient fold keeps every tally
+(a `Ledger`: a recipient's payout is the sum of its entries). -/
+def payRoute (rate : Nat) (stored : List StoredFee) : List PayMsg → Except AErr Ledger
+  | [] => .ok []
+  | m :: rest =>
+    match msgCalls rate stored m with
+    | .error e => .error e
+    | .ok cs =>
+      match distIncreaseAll {} cs with
+      | .error e => .error e
+      | .ok d =>
+        match payRoute rate stored rest with
+        | .error e => .error e
+        | .ok l => .ok (d.recips ++ l)
+
+/-- one transaction: configuration, `ValidateBasic` of the messages, the route. `.ok` carries the
+recipients' payouts. -/
+def payTx (rate : Nat) (cfg : List PayCfg) (msgs : List PayMsg) : Except String Ledger :=
+  match payConfigure [] cfg with
+  | .error _ => .error "err:cfg"
+  | .ok stored =>
+    if !msgs.all PayMsg.valid then .error "err:msg"
+    else match payRoute rate stored msgs with
+      | .error e => .error e.toString
+      | .ok l => .ok l
+
 end PvModel.Fees
